@@ -99,7 +99,11 @@ class Sys:
                 ch = self._RpcChannel(self.endpoint.methods, Mock(name="socket"), channel_id=c)
                 ch.register_disconnect_handler(self.endpoint._on_disconnect)
                 self.channels[c] = ch
-                rec["ret"] = self._run(ch.methods.subscribe(topics=[f"dead_man_switch/{u}", "process_units"]))
+                # one subscribe call with several topics; every second connection lists the dead-man-switch topic last
+                topics = [f"dead_man_switch/{u}", "process_units"]
+                if int(c[1:]) % 2 == 0:
+                    topics.reverse()
+                rec["ret"] = self._run(ch.methods.subscribe(topics=topics))
                 self.status[c] = ("live", u)
             elif kind == "disconnect":
                 _, c = ev
@@ -352,7 +356,7 @@ def run(ctx):
     )
     ctx.assumptions += [
         "a connection id is used once (channel ids are fresh UUIDs in fastapi_websocket_rpc)",
-        "each connection subscribes to exactly one dead_man_switch/<user> topic, at connect time",
+        "each connection subscribes to exactly one dead_man_switch/<user> topic, at connect time, in one call together with another topic (first or last in the list)",
         "register_active_user is only issued for a user with a live connection (frontend behaviour); REST calls carry user_id "
         "as query parameter (auth disabled), as the frontend does without Azure auth",
         "'listed' is read from engine_data.active_users, the source of GET /process_unit/{id}/active_users",
